@@ -1287,6 +1287,25 @@ pub fn main_batch(tier: &str, scenarios: u64) -> i32 {
     extra.insert("simulated_time_note".into(), json!("the CLI has no timers; simulated time is counted in intercepted syscalls (simulated_syscalls)"));
     extra.insert("counters".into(), agg.c.to_json());
     extra.insert("distinct_event_log_shapes".into(), json!(agg.c.distinct_count("log_shapes")));
+    {
+        // fault kinds that actually fired (from the shim's event log), by kind
+        let mut fired = serde_json::Map::new();
+        for (k, v) in &agg.c.n {
+            if let Some(kind) = k.strip_prefix("fired:") {
+                fired.insert(kind.to_string(), json!(v));
+            }
+        }
+        extra.insert("faults_fired".into(), serde_json::Value::Object(fired));
+        let mut fam = serde_json::Map::new();
+        for (k, v) in &agg.c.n {
+            if let Some(kind) = k.strip_prefix("family:") {
+                fam.insert(kind.to_string(), json!(v));
+            }
+        }
+        extra.insert("plan_families_run".into(), serde_json::Value::Object(fam));
+        extra.insert("seeds".into(), json!(agg.c.get("scenarios")));
+        extra.insert("model_unknown_runs".into(), json!(agg.c.get("model_unknown_runs")));
+    }
     extra.insert(
         "real_vs_stub".into(),
         json!({
